@@ -31,6 +31,9 @@ with open("/verif/seeded/INDEX.md", "w") as fh:
     for r in rows:
         fh.write(f"| {r[0]} | {r[2]} | {r[3]} | {r[4]} | {r[5]} |\n")
     t = sum(1 for r in rows if r[2] == "T"); o = sum(1 for r in rows if r[2] == "O"); now = sum(1 for r in rows if "missed" not in r[3])
+    fh.write("\nRemoved after the F15 fix: C03-3 and C04-1 (the same edit as C18-2, written independently by three sub-agents: the offset calculation moved "
+             "below the recompilation in `_update_fields`). Their demos relied on the dynamic-alignment path of the generator being wrong (F15); once that was "
+             "repaired they no longer fail, so they are not kept. C18-2 still manifests and is reported by C18.R4 / C03.R10 / C04.R7.\n")
     fh.write(f"\nTotals: {len(rows)} confirmed changes; first run: {t} by the target check, {o} more only by another check, {len(rows)-t-o} by none; "
              f"now: {now}/{len(rows)} by the target check.\n")
 print(open("/verif/seeded/INDEX.md").read()[-400:])
